@@ -287,4 +287,203 @@ theorem minkowskiRayCast_good {Sx : Type} (hs : LawfulSqrt sq) (S : V3 K → Pro
     refine ⟨le_refl _, ?_, fun _ s h0 h1 => absurd h1 (not_lt.2 h0), fun _ h => absurd h (lt_irrefl _)⟩
     simp only [lin, mul_zero, add_zero]
 
+/-! ## second invariant: the simplex lives in the (translated) shape — needs a specification of the simplex -/
+
+def vadd (a b : V3 K) : V3 K := ⟨a.x + b.x, a.y + b.y, a.z + b.z⟩
+def vsub (a b : V3 K) : V3 K := ⟨a.x - b.x, a.y - b.y, a.z - b.z⟩
+theorem vadd_vsub (a b : V3 K) : vadd (vsub a b) b = a := by
+  obtain ⟨ax, ay, az⟩ := a; obtain ⟨bx, b_y, bz⟩ := b
+  simp only [vadd, vsub, V3.mk.injEq]; refine ⟨by ring, by ring, by ring⟩
+
+/-- convex set (closed under segments) -/
+def ConvexSet (T : V3 K → Prop) : Prop :=
+  ∀ p q, T p → T q → ∀ t : K, 0 ≤ t → t ≤ 1 →
+    T ⟨p.x + t * (q.x - p.x), p.y + t * (q.y - p.y), p.z + t * (q.z - p.z)⟩
+
+theorem convexSet_translate (T : V3 K → Prop) (c : V3 K) (h : ConvexSet T) : ConvexSet (fun x => T (vadd x c)) := by
+  intro p q hp hq t h0 h1
+  have := h _ _ hp hq t h0 h1
+  simp only [vadd] at this ⊢
+  have e : ∀ a b cc : K, a + cc + t * (b + cc - (a + cc)) = a + t * (b - a) + cc := fun a b cc => by ring
+  rw [e, e, e] at this
+  exact this
+
+/-- **Specification of the abstract simplex** used by the hit-point certificate: `Pts s T` reads "every vertex of `s`
+satisfies `T`".  `project_origin_and_reduce` keeps a subset of the vertices and returns a convex combination of them;
+when the reduced simplex still has `DIM + 1` vertices the origin is in their hull. -/
+structure SimplexSpec {Sx : Type} (ops : SimplexOps K Sx) (dim : Nat) (Pts : Sx → (V3 K → Prop) → Prop) : Prop where
+  mono : ∀ s (T T' : V3 K → Prop), (∀ x, T x → T' x) → Pts s T → Pts s T'
+  reset : ∀ p (T : V3 K → Prop), T p → Pts (ops.reset p) T
+  add : ∀ s p (T : V3 K → Prop), Pts s T → T p → Pts (ops.addPoint s p) T
+  project : ∀ s (T : V3 K → Prop), ConvexSet T → Pts s T → Pts (ops.project s).1 T ∧ T (ops.project s).2
+  translate : ∀ s v (T : V3 K → Prop), Pts s T → Pts (ops.translate s v) (fun x => T (vsub x v))
+  full : ∀ s (T : V3 K → Prop), ConvexSet T → Pts s T → ops.dimension (ops.project s).1 = dim → T ⟨0, 0, 0⟩
+
+/-- the simplex vertices (translated back by the current origin) are points of `S` -/
+structure GjkInv2 (S : V3 K → Prop) (o u : V3 K) {Sx : Type} (Pts : Sx → (V3 K → Prop) → Prop)
+    (ltoi : K) (curO : V3 K) (simplex : Sx) : Prop where
+  curO_eq : curO = lin o u ltoi
+  pts : Pts simplex (fun x => S (vadd x curO))
+
+/-- hit-point certificate of a result: exit `projZero` ⇒ a point of `S` lies within `eps_tol` of the reported hit point;
+exit `fullInside` ⇒ the reported hit point belongs to `S`. -/
+def GjkNear (S : V3 K → Prop) (o u : V3 K) (len eps : K) (r : GjkRes K) : Prop :=
+  ∀ toi n, r.res = some (toi, n) →
+    (r.exit = .projZero → ∃ q, S q ∧
+      dotK (vsub q (lin o u (toi * len))) (vsub q (lin o u (toi * len))) ≤ eps * eps) ∧
+    (r.exit = .fullInside → S (lin o u (toi * len)))
+
+theorem gjkNear_none (S : V3 K → Prop) (o u : V3 K) (len eps : K) (e : GjkExit) (c : Bool) :
+    GjkNear S o u len eps ⟨none, e, c⟩ := fun _ _ h => by simp at h
+
+theorem gjkNear_other (S : V3 K → Prop) (o u : V3 K) (len eps : K) (x : Option (K × V3 K)) (e : GjkExit) (c : Bool)
+    (h1 : e ≠ .projZero) (h2 : e ≠ .fullInside) :
+    GjkNear S o u len eps ⟨x, e, c⟩ := fun _ _ _ => ⟨fun h => absurd h h1, fun h => absurd h h2⟩
+
+theorem gjkClip_spec2 {Sx : Type} (S : V3 K → Prop) (ops : SimplexOps K Sx) (dim : Nat)
+    (Pts : Sx → (V3 K → Prop) → Prop) (spec : SimplexSpec ops dim Pts) (big : K) (o u : V3 K) (len maxToi eps : K)
+    (st : GjkSt K Sx) (dir sp : V3 K) (maxBound : K) (lastChance pseudo : Bool)
+    (inv : GjkInv2 S o u Pts st.ltoi st.curO st.simplex) :
+    letI := fieldNum K sq
+    match gjkClip ops big u len maxToi st dir sp maxBound lastChance pseudo with
+    | .inl r => GjkNear S o u len eps r
+    | .inr c => GjkInv2 S o u Pts c.ltoi c.curO c.simplex := by
+  simp only [gjkClip]
+  rcases @rayToiWithHalfspace K (fieldNum K sq) sp dir st.curO u with _ | t
+  · simp only
+    split_ifs
+    · exact gjkNear_none S o u len eps _ _
+    · exact inv
+  · simp only
+    split_ifs
+    · exact gjkNear_none S o u len eps _ _
+    · refine ⟨?_, ?_⟩
+      · rw [inv.curO_eq]; simp only [V3.add, V3.smul, lin, V3.mk.injEq]
+        refine ⟨by ring, by ring, by ring⟩
+      · have h := spec.translate st.simplex (@V3.neg K (fieldNum K sq) (@V3.smul K (fieldNum K sq) u t)) _ inv.pts
+        refine spec.mono _ _ _ ?_ h
+        intro x hx
+        have e : vadd (vsub x (@V3.neg K (fieldNum K sq) (@V3.smul K (fieldNum K sq) u t))) st.curO =
+            vadd x (@V3.add K (fieldNum K sq) st.curO (@V3.smul K (fieldNum K sq) u t)) := by
+          simp only [vadd, vsub, V3.neg, V3.smul, V3.add, V3.mk.injEq]
+          refine ⟨by ring, by ring, by ring⟩
+        rw [← e]; exact hx
+    · exact inv
+
+theorem gjkTail_spec2 {Sx : Type} (S : V3 K → Prop) (hconv : ConvexSet S) (ops : SimplexOps K Sx) (dim : Nat)
+    (Pts : Sx → (V3 K → Prop) → Prop) (spec : SimplexSpec ops dim Pts) (o u : V3 K) (len eps : K) (hlen : 0 < len)
+    (dir sp : V3 K) (c : GjkClipOut K Sx) (hsp : S sp) (inv : GjkInv2 S o u Pts c.ltoi c.curO c.simplex) :
+    letI := fieldNum K sq
+    match gjkTail ops dim len dir sp c with
+    | .inl r => GjkNear S o u len eps r
+    | .inr st => GjkInv2 S o u Pts st.ltoi st.curO st.simplex ∧ S (vadd st.proj st.curO) := by
+  simp only [gjkTail]
+  have hadd : Pts (ops.addPoint c.simplex (@V3.sub K (fieldNum K sq) sp c.curO)) (fun x => S (vadd x c.curO)) := by
+    refine spec.add _ _ _ inv.pts ?_
+    show S (vadd (vsub sp c.curO) c.curO)
+    rw [vadd_vsub]; exact hsp
+  have hcv := convexSet_translate S c.curO hconv
+  split_ifs with h1 h2 h3 h4
+  · exact gjkNear_none S o u len eps _ _
+  · exact gjkNear_none S o u len eps _ _
+  · exact gjkNear_none S o u len eps _ _
+  · intro toi n h
+    simp only [Option.some.injEq, Prod.mk.injEq] at h
+    obtain ⟨rfl, rfl⟩ := h
+    refine ⟨fun h => by simp at h, fun _ => ?_⟩
+    rw [div_mul_cancel₀ _ (ne_of_gt hlen), ← inv.curO_eq]
+    have := spec.full _ _ hcv hadd h3
+    simpa only [vadd, zero_add] using this
+  · have := spec.project _ _ hcv hadd
+    exact ⟨⟨inv.curO_eq, this.1⟩, this.2⟩
+
+theorem gjkStep_spec2 {Sx : Type} (hs : LawfulSqrt sq) (S : V3 K → Prop) (hconv : ConvexSet S) (ops : SimplexOps K Sx)
+    (supp : V3 K → V3 K) (hin : ∀ d, S (supp d)) (big : K) (dim : Nat)
+    (Pts : Sx → (V3 K → Prop) → Prop) (spec : SimplexSpec ops dim Pts) (o u : V3 K) (len maxToi : K) (hlen : 0 < len)
+    (st : GjkSt K Sx) (inv : GjkInv2 S o u Pts st.ltoi st.curO st.simplex) (hproj : S (vadd st.proj st.curO)) :
+    letI := fieldNum K sq
+    match gjkStep ops supp big dim u len maxToi st with
+    | .inl r => GjkNear S o u len (@gjkEpsTol K (fieldNum K sq)) r
+    | .inr st' => GjkInv2 S o u Pts st'.ltoi st'.curO st'.simplex ∧ S (vadd st'.proj st'.curO) := by
+  simp only [gjkStep]
+  rcases htn : @tryNewAndGet K (fieldNum K sq) (@V3.neg K (fieldNum K sq) st.proj) (@gjkEpsTol K (fieldNum K sq)) with _ | ⟨dir, dist⟩
+  · -- projZero
+    intro toi n h
+    simp only [Option.some.injEq, Prod.mk.injEq] at h
+    obtain ⟨rfl, rfl⟩ := h
+    refine ⟨fun _ => ⟨vadd st.proj st.curO, hproj, ?_⟩, fun h => by simp at h⟩
+    rw [div_mul_cancel₀ _ (ne_of_gt hlen), ← inv.curO_eq]
+    simp only [tryNewAndGet] at htn
+    split_ifs at htn with hle
+    have hx : dotK (vsub (vadd st.proj st.curO) st.curO) (vsub (vadd st.proj st.curO) st.curO) = dotK st.proj st.proj := by
+      simp only [dotK, vsub, vadd]; ring
+    rw [hx]
+    have hn : (@V3.norm K (fieldNum K sq) (@V3.neg K (fieldNum K sq) st.proj)) = sq (dotK st.proj st.proj) := by
+      simp only [V3.norm, V3.normSq, V3.dot, V3.neg, fieldNum_sqrt, dotK]; congr 1; ring
+    rw [hn] at hle
+    have h0 : 0 ≤ dotK st.proj st.proj := by
+      simp only [dotK]; nlinarith [mul_self_nonneg st.proj.x, mul_self_nonneg st.proj.y, mul_self_nonneg st.proj.z]
+    have h1 := hs.nonneg _ h0
+    have h2 := hs.sq_mul _ h0
+    rw [← h2]
+    exact mul_le_mul hle hle h1 (le_trans h1 hle)
+  · simp only
+    have hsp : S (if decide (st.maxBound ≤ dist) = true then @V3.add K (fieldNum K sq) st.proj st.curO else supp dir) := by
+      split_ifs
+      · exact hproj
+      · exact hin dir
+    generalize (if decide (st.maxBound ≤ dist) = true then @V3.add K (fieldNum K sq) st.proj st.curO else supp dir) = sp
+      at hsp ⊢
+    by_cases hlc : (st.lastChance || decide (st.maxBound ≤ dist)) = true ∧ 0 < st.ltoi
+    · rw [if_pos hlc]
+      exact gjkNear_other S o u len _ _ _ _ (by decide) (by decide)
+    · rw [if_neg hlc]
+      have hclip := gjkClip_spec2 sq S ops dim Pts spec big o u len maxToi (@gjkEpsTol K (fieldNum K sq)) st dir sp dist
+        (st.lastChance || decide (st.maxBound ≤ dist)) (decide (st.maxBound ≤ dist)) inv
+      revert hclip
+      rcases @gjkClip K (fieldNum K sq) Sx ops big u len maxToi st dir sp dist
+        (st.lastChance || decide (st.maxBound ≤ dist)) (decide (st.maxBound ≤ dist)) with r | c
+      · exact fun h => h
+      · exact fun h => gjkTail_spec2 sq S hconv ops dim Pts spec o u len _ hlen dir sp c hsp h
+
+theorem gjkLoop_spec2 {Sx : Type} (hs : LawfulSqrt sq) (S : V3 K → Prop) (hconv : ConvexSet S) (ops : SimplexOps K Sx)
+    (supp : V3 K → V3 K) (hin : ∀ d, S (supp d)) (big : K) (dim : Nat)
+    (Pts : Sx → (V3 K → Prop) → Prop) (spec : SimplexSpec ops dim Pts) (o u : V3 K) (len maxToi : K) (hlen : 0 < len)
+    (n : Nat) (st : GjkSt K Sx) (inv : GjkInv2 S o u Pts st.ltoi st.curO st.simplex) (hproj : S (vadd st.proj st.curO)) :
+    letI := fieldNum K sq
+    GjkNear S o u len (@gjkEpsTol K (fieldNum K sq)) (gjkLoop ops supp big dim u len maxToi n st) := by
+  induction n generalizing st with
+  | zero => exact gjkNear_none S o u len _ _ _
+  | succ n ih =>
+    simp only [gjkLoop]
+    have h := gjkStep_spec2 sq hs S hconv ops supp hin big dim Pts spec o u len maxToi hlen st inv hproj
+    revert h
+    rcases @gjkStep K (fieldNum K sq) Sx ops supp big dim u len maxToi st with r | st'
+    · exact fun h => h
+    · exact fun h => ih st' h.1 h.2
+
+theorem minkowskiRayCast_near {Sx : Type} (hs : LawfulSqrt sq) (S : V3 K → Prop) (hconv : ConvexSet S)
+    (ops : SimplexOps K Sx) (supp : V3 K → V3 K) (hin : ∀ d, S (supp d)) (big : K) (dim : Nat)
+    (Pts : Sx → (V3 K → Prop) → Prop) (spec : SimplexSpec ops dim Pts) (ray : Ray3 K) (maxToi : K)
+    (hd : 0 < dotK ray.d ray.d) :
+    letI := fieldNum K sq
+    GjkNear S ray.o (ray.d.sdiv (sq (dotK ray.d ray.d))) (sq (dotK ray.d ray.d)) (@gjkEpsTol K (fieldNum K sq))
+      (minkowskiRayCast ops supp big dim ray maxToi) := by
+  have hlen := rayLen_pos sq hs ray.d hd
+  simp only [minkowskiRayCast]
+  have hn : (@V3.norm K (fieldNum K sq) ray.d) = sq (dotK ray.d ray.d) := rfl
+  rw [hn]
+  split_ifs
+  · exact gjkNear_none S _ _ _ _ _ _
+  · have hcv := convexSet_translate S ray.o hconv
+    have hreset : Pts (ops.reset (@V3.sub K (fieldNum K sq) (supp (@V3.neg K (fieldNum K sq)
+        (@V3.sdiv K (fieldNum K sq) ray.d (sq (dotK ray.d ray.d))))) ray.o)) (fun x => S (vadd x ray.o)) := by
+      refine spec.reset _ _ ?_
+      show S (vadd (vsub _ ray.o) ray.o)
+      rw [vadd_vsub]; exact hin _
+    have hp := spec.project _ _ hcv hreset
+    apply gjkLoop_spec2 sq hs S hconv ops supp hin big dim Pts spec ray.o _ _ maxToi hlen 100
+    · exact ⟨by simp only [lin, mul_zero, add_zero], hp.1⟩
+    · exact hp.2
+
 end C04
